@@ -38,7 +38,8 @@ THEOREMS = ["Mesa.Steps." + t for t in (
     "C05_single_inheritance_mro_is_the_chain", "C05_each_class_body_once_in_mro_order",
     "C05_nested_calls_are_ordinary_calls", "C05_nested_run_is_ordinary_calls",
     "C05_wrapper_delegates_to_step_captured_at_init", "C05_rebinding_step_on_the_instance_stops_the_counter",
-    "C05_bodies_are_exactly_the_super_chain", "C05_nested_fuel_is_immaterial")]
+    "C05_bodies_are_exactly_the_super_chain", "C05_nested_fuel_is_immaterial",
+    "C05_run_model_is_k_step_calls")]
 COUNTS = {"quick": 600, "thorough": 80000}
 EXHAUSTIVE = {"quick": True, "thorough": True}
 TRUSTED = [
